@@ -72,8 +72,15 @@ package moq
 //@   loop 1 invariant wf: wfK(m.registry)
 //@   loop 1 invariant idx: rangeIndex >= -1
 //@   loop 1 invariant {C20} names-so-far: forall(k, 0 <= k && k <= rangeIndex ==> mocks[k].InterfaceName == ifaceNameOf(namePairs[k]) && mocks[k].MockName == mockNameOf(namePairs[k]))
+//@   loop 1 invariant {C02,C20} methods-so-far: forall(k, 0 <= k && k <= rangeIndex ==> methodsAre(mocks[k].Methods, ifaceFor(m, ifaceNameOf(namePairs[k])), len(mocks[k].Methods)) && len(mocks[k].Methods) == ifaceFor(m, ifaceNameOf(namePairs[k])).NumMethods())
 //@   loop 2 invariant wf: wfK(m.registry)
 //@   loop 2 invariant jdx: ix >= 0
+//@   loop 2 invariant {C20} outer-idx: rangeIndex1 >= -1 && rangeIndex1 + 1 < len(namePairs) && len(mocks) == len(namePairs)
+//@   loop 2 invariant {C20} names-kept: forall(k, 0 <= k && k <= rangeIndex1 ==> mocks[k].InterfaceName == ifaceNameOf(namePairs[k]) && mocks[k].MockName == mockNameOf(namePairs[k]))
+//@   loop 2 invariant {C02,C20} method-counts-kept: forall(k, 0 <= k && k <= rangeIndex1 ==> len(mocks[k].Methods) == ifaceFor(m, ifaceNameOf(namePairs[k])).NumMethods())
+//@   loop 2 invariant {C02,C20} methods-kept: forall(k, 0 <= k && k <= rangeIndex1 ==> methodsAre(mocks[k].Methods, ifaceFor(m, ifaceNameOf(namePairs[k])), len(mocks[k].Methods)))
+//@   loop 2 invariant {C02,C20} this-iface: iface == ifaceFor(m, name) && name == ifaceNameOf(namePairs[rangeIndex1+1]) && mockName == mockNameOf(namePairs[rangeIndex1+1]) && len(methods) == iface.NumMethods()
+//@   loop 2 invariant {C02,C20} methods-of-this-iface-so-far: methodsAre(methods, iface, ix)
 //@   ensures{C19} no-names: len(namePairs) == 0 ==> err != nil && forallEv(i, !effectful(i))
 //@   ensures{C17,C18} writes-only-w: forallEv(i, evKind(i, "io-write") ==> (evIs(i, "io.Writer.Write") && evArg(i, 0) == w) || (evIs(i, "call:template.Template.Execute") && fresh(evArg(i, 1))))
 //@   ensures{C17} write-is-last: forallEv(i, j, evIs(i, "io.Writer.Write") && j > i ==> !effectful(j))
@@ -88,13 +95,19 @@ package moq
 //@   ensures{C08} flags-to-template: forallEv(i, evIs(i, "call:template.Template.Execute") ==> evArg(i, 2).StubImpl == old(m.cfg.StubImpl) && evArg(i, 2).SkipEnsure == old(m.cfg.SkipEnsure) && evArg(i, 2).WithResets == old(m.cfg.WithResets))
 //@   ensures{C10} pkg-clause: forallEv(i, evIs(i, "call:template.Template.Execute") ==> evArg(i, 2).PkgName == ite(old(m.cfg.PkgName) != "", old(m.cfg.PkgName), old(m.registry.srcPkgName)))
 //@   ensures{C20} one-mock-per-argument: forallEv(i, evIs(i, "call:template.Template.Execute") ==> len(evArg(i, 2).Mocks) == len(namePairs))
+//@   ensures{C02,C20} each-mock-named-from-its-own-argument: forallEv(i, evIs(i, "call:template.Template.Execute") ==> forall(k, 0 <= k && k < len(namePairs) ==> evArg(i, 2).Mocks[k].InterfaceName == ifaceNameOf(old(namePairs[k])) && evArg(i, 2).Mocks[k].MockName == mockNameOf(old(namePairs[k]))))
+//@   ensures{C02,C20} each-mock-method-count-from-its-own-interface: forallEv(i, evIs(i, "call:template.Template.Execute") ==> forall(k, 0 <= k && k < len(namePairs) ==> len(evArg(i, 2).Mocks[k].Methods) == ifaceFor(m, ifaceNameOf(old(namePairs[k]))).NumMethods()))
+//@   ensures{C02,C20} each-mock-methods-from-its-own-interface: forallEv(i, evIs(i, "call:template.Template.Execute") ==> forall(k, 0 <= k && k < len(namePairs) ==> methodsAre(evArg(i, 2).Mocks[k].Methods, ifaceFor(m, ifaceNameOf(old(namePairs[k]))), len(evArg(i, 2).Mocks[k].Methods))))
 //@   ensures{C10} same-package-unqualified: forallEv(i, evIs(i, "call:template.Template.Execute") && old(m.registry.srcPkgName) == evArg(i, 2).PkgName ==> evArg(i, 2).SrcPkgQualifier == "" && forallEv(j, !(evIs(j, "call:registry.Registry.AddImport") && evArg(j, 1) == old(m.registry.srcPkgTypes) && isSrcImport(j))))
 //@   ensures{C10} other-package-skip-ensure: forallEv(i, evIs(i, "call:template.Template.Execute") && old(m.registry.srcPkgName) != evArg(i, 2).PkgName && old(m.cfg.SkipEnsure) ==> evArg(i, 2).SrcPkgQualifier == old(m.registry.srcPkgName) + ".")
 //@   ensures{C01,C10,C11,C16} skip-ensure-registers-no-source-import: forallEv(i, evIs(i, "call:template.Template.Execute") && old(m.registry.srcPkgName) != evArg(i, 2).PkgName && old(m.cfg.SkipEnsure) ==> forallEv(j, evIs(j, "call:registry.Registry.AddImport") ==> fresh(evArg(j, 1))))
 //@   ensures{C10} other-package-imports-source: forallEv(i, evIs(i, "call:template.Template.Execute") && old(m.registry.srcPkgName) != evArg(i, 2).PkgName && !old(m.cfg.SkipEnsure) ==> existsEv(j, q, j < q && q < i && evIs(j, "call:registry.Registry.AddImport") && evArg(j, 1) == old(m.registry.srcPkgTypes) && evIs(q, "call:registry.Package.Qualifier") && evArg(q, 0) == evRes(j) && evArg(i, 2).SrcPkgQualifier == evRes(q) + "."))
 //@   ensures{C11} imports-rendered-are-registry-imports: forallEv(i, evIs(i, "call:template.Template.Execute") ==> existsEv(j, j < i && evIs(j, "call:registry.Registry.Imports") && evArg(i, 2).Imports == evRes(j) && forallEv(q, q > j && q < i ==> !evIs(q, "call:registry.Registry.AddImport"))))
-//@   ensures{C11} sync-iff-some-method: forallEv(i, evIs(i, "call:template.Data.MocksSomeMethod") ==> (evRes(i) <==> existsEv(j, j > i && evIs(j, "go/types.NewPackage") && evArg(j, 0) == "sync" && evArg(j, 1) == "sync" && existsEv(q, q > j && evIs(q, "call:registry.Registry.AddImport") && evArg(q, 1) == evRes(j)))))
+//@   ensures{C05,C11} sync-iff-some-method: forallEv(i, evIs(i, "call:template.Data.MocksSomeMethod") ==> (evRes(i) <==> existsEv(j, j > i && evIs(j, "go/types.NewPackage") && evArg(j, 0) == "sync" && evArg(j, 1) == "sync" && existsEv(q, q > j && evIs(q, "call:registry.Registry.AddImport") && evArg(q, 1) == evRes(j)))))
 //@ define isSrcImport(j) = true
+//@ -- C02/C20: the method list of a mock is exactly the method set of ITS OWN interface, in order
+//@ define ifaceFor(m, name) = as(m.registry.srcPkgTypes.Scope().Lookup(name).Type().Underlying(), *types.Interface).Complete()
+//@ define methodsAre(ms, iface, n) = forall(j, 0 <= j && j < n ==> ms[j].Name == iface.Method(j).Name())
 
 //@ func template.Template.Execute
 //@   trusted text/template executes the parsed moqTemplate on data and writes the result to w only (A-tmpl)
